@@ -31,7 +31,9 @@ CONSTANTS
     NthArgs,             \* arguments n of Iterator::nth(n) explored in histories ({} = only next())
     NthBudget,           \* at most this many nth() calls per history
     NthMaxCells,         \* nth() is explored on arrays with at most this many cells
-    AB_NthUnclamped      \* as built (seeded change C19d): an O(1) nth() that moves the cursor past the end
+    AB_NthUnclamped,     \* as built (seeded change C19d): an O(1) nth() that moves the cursor past the end
+    CloneBudget,         \* view iterators are Clone: at most this many times per history the REST of the history runs on a clone
+    AB_CloneResets       \* as built (seeded change C19e): a hand-written Clone that forgets how many items were yielded
 
 VARIABLES
     shape,      \* shape of the array under test
@@ -40,9 +42,10 @@ VARIABLES
     h,          \* call history: sequence of [len |-> reported length before the call, n |-> -1 for next() or
                 \*   the argument of nth(n), next |-> result]
     nones,      \* number of None results so far
-    budget      \* nth() calls still allowed in this history
+    budget,     \* nth() calls still allowed in this history
+    clones      \* clone operations still allowed in this history
 
-vars == <<shape, obj, st, h, nones, budget>>
+vars == <<shape, obj, st, h, nones, budget, clones>>
 
 (* Results of fallible calls: Some(v), None, or a panic of the code under test *)
 Some(v) == [k |-> "some", v |-> v]
@@ -188,6 +191,7 @@ Init == /\ shape \in ShapeSet
         /\ h = <<>>
         /\ nones = 0
         /\ budget = NthBudget
+        /\ clones = CloneBudget
 
 Done == IF obj.kind = "table" THEN Len(h) = 1 ELSE nones = Past \/ (h # <<>> /\ h[Len(h)].next = Panic)
 
@@ -202,7 +206,17 @@ Call == /\ obj.kind # "table"
                  /\ h' = Append(h, [len |-> l, n |-> n, next |-> x.r])
                  /\ nones' = IF x.r = None THEN nones + 1 ELSE nones
                  /\ budget' = IF n = -1 THEN budget ELSE budget - 1
-        /\ UNCHANGED <<shape, obj>>
+        /\ UNCHANGED <<shape, obj, clones>>
+
+(* iter.clone(): the clone is in the same state as the original and the history continues on the clone.  The history *)
+(* records the step (n = -2) with the length the CLONE reports.                                                      *)
+Cloned == [k |-> "cloned"]
+CloneStep ==
+    /\ obj.kind = "view" /\ ~Done /\ clones > 0
+    /\ st' = IF AB_CloneResets THEN [st EXCEPT !.index = 0] ELSE st
+    /\ h' = Append(h, [len |-> LenOf(shape, obj, st'), n |-> -2, next |-> Cloned])
+    /\ clones' = clones - 1
+    /\ UNCHANGED <<shape, obj, nones, budget>>
 
 (* The stateless part of the API as one step: probes of get, get_axis and sum *)
 GetProbes(sh) ==
@@ -225,9 +239,9 @@ Table(sh) ==
 Probe == /\ obj.kind = "table"
          /\ ~Done
          /\ h' = <<Table(shape)>>
-         /\ UNCHANGED <<shape, obj, st, nones, budget>>
+         /\ UNCHANGED <<shape, obj, st, nones, budget, clones>>
 
-Next == Call \/ Probe
+Next == Call \/ CloneStep \/ Probe
 
 Spec == Init /\ [][Next]_vars
 
@@ -239,7 +253,7 @@ Yielded == [j \in 1..Len(Somes(h)) |-> Somes(h)[j].next.v]
 IsPrefix(s, t) == Len(s) <= Len(t) /\ \A j \in 1..Len(s) : s[j] = t[j]
 
 (* items a call asks the iterator to consume: next() one, nth(n) n + 1; consumption stops at the end *)
-Demand(e) == IF e.n = -1 THEN 1 ELSE e.n + 1
+Demand(e) == IF e.n = -2 THEN 0 ELSE IF e.n = -1 THEN 1 ELSE e.n + 1
 RECURSIVE DemandSum(_, _)
 DemandSum(hh, j) == IF j = 0 THEN 0 ELSE Demand(hh[j]) + DemandSum(hh, j - 1)
 ConsumedBefore(j, total) == LET d == DemandSum(h, j - 1) IN IF d > total THEN total ELSE d
@@ -252,7 +266,7 @@ YieldsExpectedPrefix ==
             total == Len(ex)
         IN  \A j \in 1..Len(h) :
                 LET want == ConsumedBefore(j, total) + Demand(h[j])
-                IN  h[j].next = IF want <= total THEN Some(ex[want]) ELSE None
+                IN  h[j].next = IF h[j].n = -2 THEN Cloned ELSE IF want <= total THEN Some(ex[want]) ELSE None
 
 (* C19: ... and then None forever: a None is only ever seen after everything was yielded, *)
 (* and no Some follows a None                                                            *)
@@ -262,7 +276,7 @@ Fused ==
         \A j \in 1..Len(h) :
             h[j].next = None =>
                 /\ ConsumedBefore(j, total) + Demand(h[j]) > total
-                /\ \A k \in j..Len(h) : h[k].next = None
+                /\ \A k \in j..Len(h) : h[k].n = -2 \/ h[k].next = None
 
 (* C19: the reported remaining length is the number of items still to come *)
 LenExact ==
